@@ -62,6 +62,38 @@ contains
   end function inner
 end module umod
 """,
+    # the same name declared in two nested scopes (module variable and
+    # routine local used as loop variable); mixed-case routine names
+    """module vmod
+  implicit none
+  integer :: i
+  real :: acc
+contains
+  subroutine Driver_A(c, n)
+    integer, intent(in) :: n
+    real, intent(inout) :: c(n)
+    integer :: i
+    real :: acc
+    acc = 0.0
+    do i = 1, n
+      acc = acc + c(i)
+      c(i) = My_Func(c(i)) + acc
+    end do
+    call Sub_B(c, n)
+  end subroutine Driver_A
+  real function My_Func(x)
+    real, intent(in) :: x
+    My_Func = x * 2.0
+  end function My_Func
+  subroutine Sub_B(d, m)
+    integer, intent(in) :: m
+    real, intent(inout) :: d(m)
+    i = m
+    acc = d(1)
+    d(1) = acc + real(i)
+  end subroutine Sub_B
+end module vmod
+""",
 ]
 
 
@@ -156,6 +188,36 @@ def check_copy(orig, cp, part, desc):
         if id(lp.variable) in osyms and id(lp.variable) not in csyms:
             bad.append(("loop_variable_is_original_symbol", None,
                         "Loop.variable '%s'" % lp.variable.name))
+            break
+    # scope-correct binding: a reference / loop variable that is bound, in
+    # the original, to the symbol object of scope k must be bound, in the
+    # copy, to the symbol object of the copy's scope k with that name
+    oscope = {}
+    for k, sc in enumerate(otabs):
+        for s_ in sc._symbol_table.symbols:
+            oscope[id(s_)] = k
+
+    def bound_ok(osym, csym):
+        k = oscope.get(id(osym))
+        if k is None:
+            return True
+        want = ctabs[k]._symbol_table._symbols.get(osym.name.lower())
+        return want is csym
+    for ro, rc in zip(orig.walk(Reference), cp.walk(Reference)):
+        if not bound_ok(ro.symbol, rc.symbol):
+            bad.append(("reference_bound_to_wrong_scope", None,
+                        "Reference '%s' is bound to the symbol of scope %s "
+                        "in the original but not to the copy's symbol of "
+                        "that scope" % (ro.symbol.name,
+                                        oscope.get(id(ro.symbol)))))
+            break
+    for lo_, lc_ in zip(orig.walk(Loop), cp.walk(Loop)):
+        if not bound_ok(lo_.variable, lc_.variable):
+            bad.append(("loop_variable_bound_to_wrong_scope", None,
+                        "Loop.variable '%s' is bound to the symbol of scope "
+                        "%s in the original but not to the copy's symbol of "
+                        "that scope" % (lo_.variable.name,
+                                        oscope.get(id(lo_.variable)))))
             break
     for lit in cp.walk(Literal):
         p = lit.datatype.precision
